@@ -328,6 +328,9 @@ Definition toy_forged : prec := with_sig (toy_unsigned (Some [109])) (r_sig toy_
 (* [B32 cs] : each number as 32 big-endian bytes (compact transport of keys and
    signatures in the generated case files) *)
 Definition B32 (cs : list N) : bytes := concat (map (be 32) cs).
+(* the harness's public keys are produced by this formula (harness: key_byte) *)
+Definition key_byte (i j : N) : N := ((i + 1) * 73 + j * 151 + (j / 256) * 29 + (j * j) mod 251) mod 256.
+Definition mk_key (i : N) (w : nat) : bytes := map (fun j => key_byte i (N.of_nat j)) (seq 0 w).
 Fixpoint set_nth (n : nat) (v : N) (b : bytes) : bytes :=
   match b, n with
   | [], _ => []
@@ -337,12 +340,12 @@ Fixpoint set_nth (n : nat) (v : N) (b : bytes) : bytes :=
 
 (* one record presented to the real code, with what the real code said *)
 Record presented := mkP {
-  p_rec : prec;
+  p_rec : prec;           (* r_sig is a one-element token: equal tokens <=> equal signature bytes *)
   p_msg : option bytes;   (* create_signable_message(): Ok(bytes) / Err *)
   p_hpk : bytes;          (* BLAKE3(public key), computed by the harness *)
   p_sv : bool;            (* ml_dsa_verify(key, real message, signature), called by the harness
                              (false when there is no message) *)
-  p_hash : N;             (* content_hash(), as a number *)
+  p_hash : N;             (* content_hash(), as a token: equal tokens <=> equal hashes (within the history) *)
   p_direct : bool;        (* verify_signature().is_ok() *)
   p_cached : bool         (* verify_cached().is_ok() at this point of the history *)
 }.
@@ -401,7 +404,8 @@ Fixpoint all_pairs {A} (f : A -> A -> bool) (l : list A) : bool :=
 Definition check_hist (cap : nat) (ps : list presented) : bool :=
   forallb (fun p => opt_bytes_eqb (signable_opt (p_rec p)) (p_msg p)) ps &&
   forallb (fun p => Bool.eqb (model_verify p) (p_direct p)) ps &&
-  all_pairs (fun p q => Bool.eqb (p_hash p =? p_hash q) (bytes_eqb (key_bytes (p_rec p)) (key_bytes (p_rec q)))) ps &&
+  all_pairs (fun p q => Bool.eqb (fst p =? fst q) (bytes_eqb (snd p) (snd q)))
+            (map (fun p => (p_hash p, key_bytes (p_rec p))) ps) &&
   list_eqb Bool.eqb
     (run (fun p => key_bytes (p_rec p)) model_verify cap (fun _ _ => O) O [] ps)
     (map p_cached ps).
